@@ -21,7 +21,9 @@ Kinds == {"ifT", "ifElseT", "ifElseE", "elif1", "elif2", "while", "fromTo", "fro
           "fnWhile",
           \* loops whose body *ends* in an unconditional `break` / `return` behind the nested part (a retry loop): the first
           \* iteration takes the nested part, the second one reaches the tail
-          "whileBrk", "fromBrk", "fnWhileRet"}
+          "whileBrk", "fromBrk", "fnWhileRet",
+          \* a condition whose right operand is guarded by the left one: `v != 1 && 6 / (v - 1) > 0` - evaluated for v = 1 it fails
+          "ifGuard"}
 Terms == {"fall", "break", "continue", "ret", "assert", "div0", "oob"}
 LoopKinds == {"while", "fromTo", "fromThru", "fromStep", "fromAnon", "fromColl", "whileX", "fromToX", "fromStepX", "fromEmpty", "fromVars", "fromThruVar", "whileSlot", "fnWhile", "whileBrk", "fromBrk", "fnWhileRet"}
 
@@ -102,6 +104,7 @@ Build(p, d, t, ctx, padded) ==
                                            <<Modify(Name("hc", d), Bin("+", V(Name("hc", d)), I(1)))>> \o body \o <<Print(S(Name("tail", d))), Ret(I(70 + d))>>)>>
                                    \o <<Ret(I(10 + d))>>)),
                                Print(Call(V(Name("f", d)), <<>>))>> \o after
+      [] k = "ifGuard" -> <<If(Bin("&&", Ne(ctx, 1), Bin(">", Bin("/", I(6), Bin("-", CV(ctx), I(1))), I(0))), body)>> \o after
       [] k = "ifSlot" -> <<LetT(Name("fl", d), "[bool...]", List(<<Eq(ctx, 1), B(FALSE)>>)), Let(Name("k", d), I(0)),
                            If(Idx(V(Name("fl", d)), V(Name("k", d))), body)>> \o after
       [] k = "whileSlot" -> <<LetT(Name("fl", d), "[bool...]", List(<<B(TRUE), B(TRUE), B(TRUE), B(FALSE)>>)), Let(Name("w", d), I(-1)),
